@@ -89,6 +89,16 @@ func TransformModuleFilesToModel( //nolint:funlen,gocognit,cyclop
 			continue
 		}
 
+		if typeDefExtensions == nil {
+			// the file has a model header (or no module name): it cannot be merged as a module
+			transformErrors = multierror.Append(transformErrors, &ModuleTransformationSingleError{
+				Msg:  "file is not a module",
+				File: module.Name,
+			})
+
+			continue
+		}
+
 		for _, typeDef := range mdl.GetTypeDefinitions() {
 			// the extension is this very declaration, not merely a declaration of the same name:
 			// a file may define a type and extend another (or, across files, the same) one
